@@ -1095,6 +1095,10 @@ func (h *SexpHash) NewSexpHashSelector(sym *SexpSymbol) *SexpHashSelector {
 }
 
 func (si *SexpHashSelector) SexpString(ps *PrintState) string {
+	if si.Container == nil || si.Select == nil {
+		// the zero selector, as (var x hashSelector) makes it
+		return "(hashSelector unset)"
+	}
 	rhs, err := si.RHS(si.Container.Env)
 	if err != nil {
 		return fmt.Sprintf("SexpHashSelector error: could not get RHS: '%v'",
@@ -1112,10 +1116,11 @@ func (si *SexpHashSelector) Type() *RegisteredType {
 // the value obtained.
 func (x *SexpHashSelector) RHS(env *Zlisp) (sx Sexp, err error) {
 	if env == nil {
-		panic("SexpHashSelector.RSH() called with nil env")
+		return SexpNull, fmt.Errorf("SexpHashSelector.RHS() called with nil env")
 	}
-	if x.Select == nil {
-		panic("cannot call RHS on hash selector with nil Select")
+	if x.Select == nil || x.Container == nil {
+		// the zero selector, as (var x hashSelector) makes it
+		return SexpNull, fmt.Errorf("SexpHashSelector: selector is not set")
 	}
 	//Q("SexpHashSelector.RHS(): x.Select is '%#v'", x.Select)
 	switch t := x.Select.(type) {
